@@ -7,7 +7,7 @@
    naming known or unknown users and channels.  A Go panic (nil map entry dereference,
    index out of range) is the explicit result `Panic`.  `Inv` is the structural
    consistency statement of the property (C05_inv_meaning spells it out). *)
-Require Import Bytes AMap Names State OrderLemmas StateInv StateHandlers ClientStep ClientStepProofs.
+Require Import Bytes AMap Names State OrderLemmas StateInv StateHandlers StatePerms ClientStep ClientStepProofs.
 Require Ctcp Sasl Cap StsState.
 
 (* Inv is exactly the property's consistency clause *)
@@ -81,3 +81,20 @@ Theorem C05_client_all_histories : forall cfg sts h, Ctcp.connected (cc_env cfg)
   exists cs out, client_run cfg (client_init sts) h = Ok (cs, out) /\ Inv (cs_state cs).
 Proof. exact client_all_histories. Qed.
 Print Assumptions C05_client_all_histories.
+
+(* ---- the permission maps (not part of the property's text; the design added the clause
+   "the keys of a user's permission map are exactly its ChannelList") ----
+   Full clause:  forall reachable s, ku, u, cn:
+       alookup ku (st_users s) = Some u -> (In cn (u_chans u) <-> alookup cn (u_perms u) <> None).
+   Proved: the direction "every listed channel has an entry".  The other direction is false
+   of the code as it is: handleMODE stores an entry for any tracked user named in a
+   channel-mode change, member of that channel or not (finding mode-perms-for-non-member). *)
+Theorem C05_perms_cover_partial : forall cfg h s o, run cfg state_init h = Ok (s, o) ->
+  forall ku u cn, alookup ku (st_users s) = Some u -> In cn (u_chans u) -> alookup cn (u_perms u) <> None.
+Proof. exact all_histories_cover_flat. Qed.
+Print Assumptions C05_perms_cover_partial.
+
+Theorem C05_perms_only_listed_refuted : exists s o, run ex_cfg state_init perms_history = Ok (s, o) /\
+  ~ (forall ku u cn, alookup ku (st_users s) = Some u -> alookup cn (u_perms u) <> None -> In cn (u_chans u)).
+Proof. exact perms_only_listed_refuted. Qed.
+Print Assumptions C05_perms_only_listed_refuted.
